@@ -64,6 +64,36 @@ fn rev(lang: &str) -> &'static Rev {
     })[lang_index(lang)]
 }
 
+/// reverse table for ordinals: every spelling (all inflections and stem variants) of every rank < 200 ->
+/// the set of digit texts it may be rewritten as ("21º", "21ª" ...)
+fn rev_ord(lang: &str) -> &'static BTreeMap<String, BTreeSet<String>> {
+    static R: OnceLock<Vec<BTreeMap<String, BTreeSet<String>>>> = OnceLock::new();
+    &R.get_or_init(|| {
+        LANGS
+            .iter()
+            .map(|l| {
+                let mut m: BTreeMap<String, BTreeSet<String>> = BTreeMap::new();
+                for n in 1..200u64 {
+                    if n > spell::ordinal_max(l) {
+                        break;
+                    }
+                    let mut e = crate::choose::Enumerate::new();
+                    let mut guard = 0;
+                    loop {
+                        if let Some((w, marker)) = spell::ordinal(l, n, &mut e) {
+                            m.entry(norm(l, &w.join(" "), false)).or_default().insert(format!("{}{}", n, marker));
+                        }
+                        guard += 1;
+                        if !e.advance() || guard > 3000 {
+                            break;
+                        }
+                    }
+                }
+                m
+            })
+            .collect()
+    })[lang_index(lang)]
+}
 fn digit_word(lang: &str, k: u32, zsel: u8, lone: bool) -> String {
     if k == 0 {
         let z = &vocab_of(lang).zeros;
@@ -99,7 +129,7 @@ impl Property for C08 {
         "C08"
     }
     fn rule(&self) -> String {
-        "Pairs: (language, a in [1,99], b in [0,99], joiner in {space, conjunction word}, variant bytes for each side) spelled by the reference speller and joined; scanned at threshold 0 through the tokenizer pipeline. Oracle (reverse direction of the speller): every word except conjunction words lies in exactly one occurrence, in order; each occurrence's numeral c (after k leading zeros that must equal its leading zero words) must be a number whose set of standard spellings (all variants of c < 1000, hyphens split, French plural marks normalised) contains exactly the covered words - with conjunction words ignored on both sides when the covered words contain one (an extra conjunction never makes a reading illegitimate, a missing one does). So 'twenty twelve' -> 32 fails ('twenty twelve' is no spelling of 32) while 20 12, or 21 for 'twenty one', pass. Enumerated completely in every tier: all 99x100x2 (a,b,joiner) with canonical spellings; generated: random variants of both sides. Dictation: digit strings d spoken digit by digit (en zeros zero|o, de eins); expected rewrite = d cut after every non-zero digit with trailing zeros as one last group, joined by single spaces; |d| <= 4 enumerated (11110 per language), |d| 5..8 generated. Non-trivial = distinct pairs where b is a unit or teen that could arithmetically be added to a (a multiple of ten >= 20 with b < 20, or any a with b < 10), and dictation strings containing a zero.".into()
+        "Pairs: (language, a in [1,99], b in [0,99], joiner in {space, conjunction word}, variant bytes for each side) spelled by the reference speller and joined; scanned at threshold 0 through the tokenizer pipeline. Oracle (reverse direction of the speller): every word except conjunction words lies in exactly one occurrence, in order; each occurrence's numeral c (after k leading zeros that must equal its leading zero words) must be a number whose set of standard spellings (all variants of c < 1000, hyphens split, French plural marks normalised) contains exactly the covered words - with conjunction words ignored on both sides when the covered words contain one (an extra conjunction never makes a reading illegitimate, a missing one does). So 'twenty twelve' -> 32 fails ('twenty twelve' is no spelling of 32) while 20 12, or 21 for 'twenty one', pass. Enumerated completely in every tier: all 99x100x2 (a,b,joiner) with canonical spellings; generated: random variants of both sides. Ordinal pairs: two ordinals below 100, each with its own inflection and stem variant; every occurrence must be a standard ordinal spelling (reverse table of all inflections of every rank < 200) of the text it is rewritten as, so components whose gender / number disagree are not fused. Dictation: digit strings d spoken digit by digit (en zeros zero|o, de eins); expected rewrite = d cut after every non-zero digit with trailing zeros as one last group, joined by single spaces; |d| <= 4 enumerated (11110 per language), |d| 5..8 generated. Non-trivial = distinct pairs where b is a unit or teen that could arithmetically be added to a (a multiple of ten >= 20 with b < 20, or any a with b < 10), and dictation strings containing a zero.".into()
     }
     fn assumptions(&self) -> Vec<String> {
         vec![
@@ -114,7 +144,8 @@ impl Property for C08 {
         let pair = (lang_strategy(), 1u64..100, 0u64..100, any::<bool>(), choices(), choices()).prop_map(|(lang, a, b, conj, ca, cb)| Case { lang, kind: "pair".into(), a, b, conj, ca, cb, d: String::new(), zsel: vec![] });
         let dict = (lang_strategy(), prop_oneof![1 => "[0-9]{1,4}", 3 => "[0-9]{5,8}", 2 => "[0-9]{0,3}0{1,3}[0-9]{0,3}0{0,2}", 1 => "0{4,8}[0-9]{0,2}", 1 => "[1-9]0{4,7}", 1 => "[0-9]{0,2}0{4,6}[0-9]{0,2}"], proptest::collection::vec(any::<u8>(), 0..8))
             .prop_map(|(lang, d, zsel)| Case { lang, kind: "dictation".into(), a: 0, b: 0, conj: false, ca: vec![], cb: vec![], d, zsel });
-        prop_oneof![3 => pair, 1 => dict].boxed()
+        let ordpair = (lang_strategy(), 1u64..100, 1u64..100, proptest::collection::vec(any::<u8>(), 1..6), proptest::collection::vec(any::<u8>(), 1..6)).prop_map(|(lang, a, b, ca, cb)| Case { lang, kind: "ordpair".into(), a, b, conj: false, ca, cb, d: String::new(), zsel: vec![] });
+        prop_oneof![6 => pair, 2 => dict, 1 => ordpair].boxed()
     }
     fn cases(&self, tier: Tier) -> u64 {
         tier.pick(3_000_000, 30_000_000)
@@ -207,6 +238,50 @@ impl Property for C08 {
                 obs.nontrivial(&(l, &text));
             }
             obs.sample(|| json!({"lang": l, "dictated": text, "expect": want}));
+            return Ok(());
+        }
+        if c.kind == "ordpair" {
+            // two ordinals below 100 said one after the other, each with its own inflection: every occurrence
+            // must be a standard ordinal spelling (some inflection, some stem variant) of what it is rewritten as
+            let (Some((wa, _)), Some((wb, _))) = (spell::ordinal(l, c.a.min(spell::ordinal_max(l)), &mut Bytes::new(&c.ca)), spell::ordinal(l, c.b.min(spell::ordinal_max(l)), &mut Bytes::new(&c.cb))) else {
+                obs.exclude("shape-documented-as-not-an-ordinal");
+                return Ok(());
+            };
+            let mut w = wa.clone();
+            w.extend(wb.clone());
+            let text = w.join(" ");
+            let (toks, occ) = scan(&text, lg, 0.0);
+            let word_tok: Vec<usize> = (0..toks.len()).filter(|&i| is_word(&toks[i].text)).collect();
+            if word_tok.len() != w.len() {
+                return Err(format!("[{}] {:?}: the tokenizer does not return the {} words as word tokens", l, text, w.len()));
+            }
+            let table = rev_ord(l);
+            let mut covered = vec![false; w.len()];
+            for o in &occ {
+                let (Some(k0), Some(k1)) = (word_tok.iter().position(|&i| i == o.start), word_tok.iter().position(|&i| i + 1 == o.end)) else {
+                    return Err(format!("[{}] {:?}: occurrence {:?} does not begin and end on words", l, text, o));
+                };
+                for k in k0..=k1 {
+                    covered[k] = true;
+                }
+                let phrase = norm(l, &w[k0..=k1].join(" "), false);
+                let ok = table.get(&phrase).map_or(false, |set| set.contains(&o.text)) || (!o.ord && rev(l).exact.get(&phrase).map_or(false, |set| set.contains(&(o.value() as u64))));
+                if !ok {
+                    return Err(format!("[{}] {:?} (ordinals {} and {}): the words {:?} were rewritten as {:?} but they are not a spelling of it (inflections must agree)", l, text, c.a, c.b, w[k0..=k1].join(" "), o.text));
+                }
+            }
+            if let Some(k) = covered.iter().position(|x| !*x) {
+                // a word that is deliberately not a number on its own (es/pt lone masculine segundo) may stay
+                let alone = text2num::text2digits(&w[k], lg).is_ok();
+                if alone {
+                    return Err(format!("[{}] {:?}: the ordinal word {:?} is in no occurrence", l, text, w[k]));
+                }
+                obs.exclude("ordinal-word-not-a-number-on-its-own");
+                return Ok(());
+            }
+            obs.label(if occ.len() == 1 { "ordpair:one-number" } else { "ordpair:two-numbers" });
+            obs.nontrivial(&(l, &text));
+            obs.sample(|| json!({"lang": l, "text": text, "occurrences": occ.iter().map(|o| o.text.clone()).collect::<Vec<_>>()}));
             return Ok(());
         }
         // pairs -----------------------------------------------------------------------------------
